@@ -56,11 +56,32 @@ reg(
     "InvalidAddress, StackUnderflow, NotDefined, AlreadyDefined, InvalidStructMember, InvalidSchema, BadState, IntegerOverflow, "
     "InvalidInstruction, CallStack, Ffi*NotDefined, Bug, Unknown) is a violation with the program as witness; the match in "
     "polkit::run::classify has no wildcard. Evidence: acceptance rate, instruction kinds executed, operator x type pairs, boundary "
-    "operands. Quick ~4 000 command modules + 4 000 pure functions + 600 quirk modules.",
+    "operands. Quick ~4 000 command modules + 4 000 pure functions + 600 quirk modules. "
+    "(illtyped) closes the blind spot of typed generators - a checker that accepts TOO MUCH: 1 600 pure + 1 200 command base "
+    "modules (accepted by the compiler) each get 8 single type-breaking mutations at the IR level (polkit::mutate; the intended "
+    "type of every expression position is re-derived top-down from declarations and bottom-up with `never` holes): wrong-expr x3 "
+    "(a sub-expression of type T replaced by a fresh expression of another type, plain or beside a well-typed sibling inside an "
+    "if / match / `or` / block so that the checker must find the type by unification; positions weighted towards Ok/Err/Some "
+    "payloads, if branches, match arms, `or` right sides, block results, struct fields, call arguments, returns, comparison "
+    "operands), ctor-swap (Ok<->Err, Some(e)<->e, e->Some(e), Ok(x)<->Err(x) binding patterns), decl (return / parameter / "
+    "struct-field / finish-function, recall, action parameter / command-field / fact-value type changed, bodies and callers "
+    "untouched; harness inputs follow the mutated declarations), arity (argument dropped or inserted in function, FFI, "
+    "finish-function, action and `recall` calls), var-swap (variable of another type), global-let (global struct literal with an "
+    "ill-typed / missing / unknown field plus reader functions). Every function and global of a mutant also gets a well-typed "
+    "consumer zchk_* that takes the value apart by its DECLARED type (saturating_add on ints, branch on bools, match on "
+    "options/results, field access, checked `as` cast for strings/ids/enums) so that an ill-typed value cannot leave silently. "
+    "Rejected mutants are only counted (rejected_illtyped, illtyped_rejection_reasons); accepted ones (type-preserving by accident, "
+    "or a hole) run like the other workloads; went wrong => c24:illtyped-<class>:<error>. Every 4th base also runs unmutated "
+    "with consumers (control). Counters illtyped_generated_<class> / illtyped_accepted_<class> (generated required > 0 per class). "
+    "Fixed hand-written probes on every run: quirk-map-return (early return inside a callee's map), quirk-recall-arity, "
+    "quirk-bind-count. Replay-only workload `doc` runs one entry point of a hand-written document (minimal reproducers).",
     "Seal/open blocks are `return todo()` and never run. Commands are driven through setup_command/step, not through the runtime "
     "(VmPolicy). Known findings (known_findings.jsonl): partial struct literals, binding alternations, substruct onto a field-less "
     "struct; modules containing the last construct get the signature c24:substruct-to-empty-struct for any failure, which could "
-    "mask an unrelated failure in the same module.",
+    "mask an unrelated failure in the same module. illtyped: one mutation per mutant, mutations are syntactic classes, not an "
+    "enumeration of the type rules; an accepted ill-typed value is only noticed if it reaches a run-time type check (consumers "
+    "cover function results and globals, not locals that are never used); signatures are per mutation class, so a known hole "
+    "reachable through a class (global-let, arity-recall) can mask another hole found through the same class with the same error.",
     design_ref="DESIGN.md 5 (C24)",
 )
 
